@@ -20,9 +20,9 @@ TRACE = {
  "C13": "every malformed-request class of the property statement (harness/drive/bad.go, 36 classes: unknown/duplicate/empty ids, unset sub-messages, zero/negative resources, releases of nothing or with an unexpected termination type, updates for unknown nodes / released allocations) is injected in states reached by seeded histories; no panic, no hang, the matching rejection, and for invalid items every ledger exactly unchanged; all ledger invariants keep being evaluated",
  "C16": "every reload step: rejected => nothing observable changes; accepted => nodes/applications/queue totals preserved, new limits/properties applied as the abstract configuration says, missing managed queues Draining, draining leaf rejects new applications, queues removed only when empty",
 }
-MODEL = {"C01", "C02", "C03", "C04", "C06", "C07", "C08", "C09", "C10"}
+MODEL = {"C01", "C02", "C03", "C04", "C06", "C07", "C08", "C09", "C10", "C12"}
 MODEL_CAT = MODEL | {"C05"}
-MODEL_TXT = ". Design level: the generative specification spec/YuniKorn.tla (explicit node and queue ledgers, reservations, the placeholder swap pipeline, predicate refusals, release of single keys and of everything, the shim's protocol view, confirmations in any order) is model-checked exhaustively by TLC within the bounds of spec/MC_YK_intended*.cfg (cold start) and of the warm starts MC_YK_warm.cfg / MC_YK_warm2.cfg (a placeholder allocated / plus a smaller real task waiting) and MC_YK_full.cfg (both nodes full: the reservation regime) and MC_YK_pre.cfg (full nodes held by a queue without guarantee, a guaranteed queue asks: queue preemption with the preempting ledger) against the invariants C01_*..C10_*; TLC-generated environment histories (all bounded behaviours from each start state + sampled long ones) are replayed on the real core"
+MODEL_TXT = ". Design level: the generative specification spec/YuniKorn.tla (explicit node and queue ledgers, reservations, the placeholder swap pipeline, predicate refusals, release of single keys and of everything, the shim's protocol view, confirmations in any order) is model-checked exhaustively by TLC within the bounds of spec/MC_YK_intended*.cfg (cold start) and of the warm starts MC_YK_warm.cfg / MC_YK_warm2.cfg (a placeholder allocated / plus a smaller real task waiting) and MC_YK_full.cfg (both nodes full: the reservation regime) and MC_YK_pre.cfg (full nodes held by a queue without guarantee, a guaranteed queue asks: queue preemption with the preempting ledger), for C12 with the Restart action enabled (the core crashes at any point, the shim replays what it knows), against the invariants C01_*..C10_*; TLC-generated environment histories (all bounded behaviours from each start state + sampled long ones) are replayed on the real core"
 checks = []
 for p, txt in TRACE.items():
     checks.append({
